@@ -6,6 +6,7 @@ import (
 	"sort"
 	"sync"
 	"testing"
+	"time"
 
 	"github.com/attestantio/go-eth2-client/spec/phase0"
 	specqbft "github.com/bloxapp/ssv-spec/qbft"
@@ -46,7 +47,7 @@ type FilterSpec struct {
 }
 
 type Op struct {
-	Op     string     `json:"op"` // push trypush trypop popc
+	Op     string      `json:"op"` // push trypush trypop popc
 	Msg    *MsgSpec    `json:"msg,omitempty"`
 	State  *StateSpec  `json:"state,omitempty"`
 	Filter *FilterSpec `json:"filter,omitempty"`
@@ -213,7 +214,7 @@ func run(p Prog) *prog.Result {
 					classes["trypush-full"] = true
 				}
 			}
-		case "trypop", "popc":
+		case "trypop", "popc", "popd":
 			filter := mkFilter(*op.Filter, *op.State, byPtr)
 			opState := *op.State
 			st := &queue.State{HasRunningInstance: opState.Running, Height: specqbft.Height(opState.Height),
@@ -230,8 +231,16 @@ func run(p Prog) *prog.Result {
 				inboxUpper = 0
 			} else {
 				ctx, cancel := context.WithCancel(context.Background())
-				cancel()
+				if op.Op == "popd" {
+					cancel()
+					ctx, cancel = context.WithTimeout(context.Background(), 300*time.Microsecond) // really waits in Pop's wait loop
+				}
+				cancel2 := cancel
+				if op.Op == "popc" {
+					cancel()
+				}
 				got = q.Pop(ctx, queue.NewMessagePrioritizer(st), filter)
+				cancel2()
 				// the early-return path of Pop may leave the inbox unread: keep the upper bound
 				if got == nil {
 					inboxUpper = 0
@@ -344,7 +353,7 @@ func genFilter(t *rapid.T) FilterSpec {
 }
 
 func genOp(t *rapid.T) Op {
-	switch o := rapid.SampledFrom([]string{"push", "push", "trypush", "trypush", "trypop", "trypop", "trypop", "popc"}).Draw(t, "op"); o {
+	switch o := rapid.SampledFrom([]string{"push", "push", "push", "trypush", "trypush", "trypop", "trypop", "trypop", "popc", "popc", "popd"}).Draw(t, "op"); o {
 	case "push", "trypush":
 		m := genMsg(t)
 		return Op{Op: o, Msg: &m}
@@ -359,7 +368,10 @@ func gen(t *rapid.T) Prog {
 }
 
 func TestPropQueueModel(t *testing.T) { prog.Check(t, "C14", "TestPropQueueModel", gen, run) }
-func TestReplay(t *testing.T)        { prog.Replay(t, "C14", "TestPropQueueModel", run); prog.Replay(t, "C14", "TestPropQueueConcurrent", runConc) }
+func TestReplay(t *testing.T) {
+	prog.Replay(t, "C14", "TestPropQueueModel", run)
+	prog.Replay(t, "C14", "TestPropQueueConcurrent", runConc)
+}
 
 // ---- concurrent producers, one consumer ---------------------------------------------------
 
@@ -425,7 +437,15 @@ func runConc(p ConcProg) *prog.Result {
 		}
 		k++
 		filter := mkFilter(f, p.State, byPtr)
-		if got := q.TryPop(queue.NewMessagePrioritizer(st), filter); got != nil {
+		var got *queue.DecodedSSVMessage
+		if k%3 == 0 {
+			ctx, cancel := context.WithTimeout(context.Background(), 200*time.Microsecond)
+			got = q.Pop(ctx, queue.NewMessagePrioritizer(st), filter) // blocks in the wait loop while producers push
+			cancel()
+		} else {
+			got = q.TryPop(queue.NewMessagePrioritizer(st), filter)
+		}
+		if got != nil {
 			e := byPtr[got]
 			if e == nil {
 				return fail(res, "conc-pop-invented", "popped a message nobody pushed")
